@@ -266,6 +266,165 @@ impl CaseSpace for Timing {
 }
 
 // ---------------------------------------------------------------------------------------
+// an attempt that is abandoned half-way (a message is lost), then a complete one
+// ---------------------------------------------------------------------------------------
+
+/// The k-th message of the first attempt is lost, the master times out; after a pause a second
+/// attempt runs over an ideal network.  Whatever the first attempt left behind in either
+/// endpoint, a second attempt that reports success obeys the same error bound.
+struct Repeated;
+
+const R_DELAYS: [(u64, u64); 3] = [(0, 0), (7, 2), (50, 50)];
+const R_GAPS: [u64; 3] = [0, 3_000, 70_000];
+
+impl CaseSpace for Repeated {
+    fn name(&self) -> String {
+        "abandoned-then-repeated".to_string()
+    }
+    fn total(&self) -> usize {
+        3 * 4 * R_DELAYS.len() * R_GAPS.len() * 2
+    }
+    fn run(&self, index: usize, transcript: bool) -> RunResult {
+        let mut res = RunResult::default();
+        let proc_k = index % 3;
+        let i = index / 3;
+        let lost = 1 + i % 4;
+        let i = i / 4;
+        let (df, db) = R_DELAYS[i % R_DELAYS.len()];
+        let i = i / R_DELAYS.len();
+        let gap = R_GAPS[i % R_GAPS.len()];
+        let second_proc = if (i / R_GAPS.len()) % 2 == 0 { proc_k } else { (proc_k + 1) % 3 };
+        res.obs = index as u64 + 181818;
+        let base = 1_600_000_000_000u64;
+        let ocfg = OCfg { keep_alive_ms: None, ..Default::default() };
+        let mut pair = Pair::new(&ocfg, 2048, true, 1000, 1);
+        {
+            let mut a = pair.app.lock().unwrap();
+            a.iin.need_time = true;
+            a.clear_need_time_on_write = true;
+            a.processing_delay_ms = 3;
+        }
+        *pair.clock.base_ms.lock().unwrap() = Some(base);
+        let mut cfg = AssociationConfig::quiet();
+        cfg.response_timeout = Timeout::from_duration(Duration::from_secs(2)).unwrap();
+        let Some(assoc) = pair.add_association(cfg) else {
+            return res;
+        };
+        pair.delay_m2o = df;
+        pair.delay_o2m = db + 3;
+        pair.take_mcb();
+        pair.take_ocb();
+        let mut written: Vec<(u64, u64)> = Vec::new();
+        let mut outcomes: Vec<(String, String)> = Vec::new();
+        let mut collect = |pair: &mut Pair, written: &mut Vec<(u64, u64)>, outcomes: &mut Vec<(String, String)>| {
+            for c in pair.take_ocb() {
+                if let Cb::WriteAbsTime(v) = c {
+                    written.push((pair.k.now_ms(), v));
+                }
+            }
+            for c in pair.take_mcb() {
+                if let MCb::Done(n, r) = c {
+                    outcomes.push((n, r));
+                }
+            }
+        };
+        // first attempt: the `lost`-th message in flight disappears
+        {
+            let mut a = assoc.clone();
+            let p = procedure(proc_k);
+            pair.call("first", async move { a.synchronize_time(p).await });
+        }
+        pair.pump();
+        let mut deliveries = 0usize;
+        for _ in 0..32 {
+            collect(&mut pair, &mut written, &mut outcomes);
+            if outcomes.iter().any(|o| o.0 == "first") {
+                break;
+            }
+            if pair.flights.is_empty() {
+                // nothing in flight: wait for the response timeout
+                pair.advance(2_100);
+                continue;
+            }
+            deliveries += 1;
+            if deliveries == lost {
+                pair.flights.clear();
+                continue;
+            }
+            let next = pair.flights.iter().map(|f| f.deliver_at).min().unwrap();
+            pair.advance_to(next);
+            res.transitions += 1;
+        }
+        collect(&mut pair, &mut written, &mut outcomes);
+        let first_writes = written.len();
+        pair.advance(gap);
+        // second attempt over an ideal network
+        let t2 = pair.k.now_ms();
+        {
+            let mut a = assoc.clone();
+            let p = procedure(second_proc);
+            pair.call("second", async move { a.synchronize_time(p).await });
+        }
+        pair.pump();
+        for _ in 0..32 {
+            collect(&mut pair, &mut written, &mut outcomes);
+            if outcomes.iter().any(|o| o.0 == "second") {
+                break;
+            }
+            match pair.flights.iter().map(|f| f.deliver_at).min() {
+                Some(next) => pair.advance_to(next),
+                None => pair.advance(2_100),
+            }
+            res.transitions += 1;
+        }
+        collect(&mut pair, &mut written, &mut outcomes);
+        if transcript {
+            res.transcript.push(format!("first {:?} (message {lost} lost), pause {gap} ms, second {:?} at t={t2}; d_f={df} d_b={db}", procedure(proc_k), procedure(second_proc)));
+            res.transcript.push(format!("write_absolute_time (t, value): {written:?}"));
+            res.transcript.push(format!("outcomes: {outcomes:?}"));
+        }
+        if let Some(f) = pair.failure() {
+            res.violation = Some(Violation::new("C18.X0", f.clone(), f));
+            return res;
+        }
+        let tag = format!("{:?}-after-abandoned-{:?}", procedure(second_proc), procedure(proc_k));
+        let second: Vec<&String> = outcomes.iter().filter(|o| o.0 == "second").map(|o| &o.1).collect();
+        if second.len() != 1 {
+            res.violation = Some(Violation::new("C18.U1", "synchronisation-not-resolved-exactly-once", format!("second attempt: {} outcomes", second.len())));
+            return res;
+        }
+        if second[0].starts_with("Ok") {
+            let w: Vec<&(u64, u64)> = written.iter().skip(first_writes).collect();
+            if w.len() != 1 {
+                res.violation = Some(Violation::new("C18.A0", format!("success-without-exactly-one-write:{tag}"), format!("{} writes during the second attempt", w.len())));
+                return res;
+            }
+            let (tw, v) = *w[0];
+            let clock = base + tw;
+            let err = (v as i128 - clock as i128).unsigned_abs() as u64;
+            let bound = match second_proc {
+                1 => df.abs_diff(db),
+                _ => df,
+            };
+            if err > bound {
+                res.violation = Some(Violation::new(
+                    "C18.A1",
+                    format!("clock-error-exceeds-bound:{tag}"),
+                    format!("message {lost} of the first attempt lost, pause {gap} ms, d_f={df} d_b={db}: second attempt wrote {v} at t={tw} (master clock {clock}), error {err} ms > bound {bound} ms"),
+                ));
+                return res;
+            }
+            res.nontrivial = true;
+        } else {
+            res.violation = Some(Violation::new("C18.L1", format!("failure-in-ideal-conditions:{tag}"), format!("second attempt over an ideal network: {}", second[0])));
+            return res;
+        }
+        res.model_states.push((proc_k * 16 + lost * 3 + second_proc) as u64 + 500);
+        res
+    }
+}
+
+// ---------------------------------------------------------------------------------------
 // master-side failure conditions with a scripted outstation
 // ---------------------------------------------------------------------------------------
 
@@ -366,6 +525,9 @@ pub fn replay(name: &str, path: &[usize]) -> Option<RunResult> {
     if Replies.name() == name {
         return Some(Replies.run(path[0], true));
     }
+    if Repeated.name() == name {
+        return Some(Repeated.run(path[0], true));
+    }
     None
 }
 
@@ -373,6 +535,7 @@ pub fn check(tier: &str) -> i32 {
     let mut c = Check::new("C18", tier);
     c.cases(&build_timing(tier));
     c.cases(&Replies);
+    c.cases(&Repeated);
     c.finish(
         "model_checking",
         "paired real MasterTask + real OutstationTask on one virtual clock, the driver holding every frame for a scripted one-way delay: forward delay x backward delay in {0,1,2,7,65535,65536} ms x processing delay in {0,1,2,7,65535} ms x master clock base {0, 1, 2^47, just below and at 2^48-1} x {LAN, non-LAN, direct write} x {honest, processing delay reported larger than the round trip, NEED_TIME persisting}, plus unrelated traffic (unsolicited response, stale-sequence response, link status request) injected at each protocol step; success implies |time handed to the application - (base + virtual now)| <= d_f (LAN, direct) / |d_f - d_b| (non-LAN) and exactly one write; the failure conditions imply a reported failure; ideal conditions imply success. Plus scripted master-side replies (unexpected objects, IIN2 error, NEED_TIME in the final reply, missing delay object) at each step of each procedure; non-trivial = the application's clock was written; distinct = distinct case",
